@@ -16,16 +16,17 @@ What is modelled as coded:
 * `BufRead::lines` (`readLines`): split on `\n`, one `\r` before the `\n` is dropped, no line for the
   empty tail after a final `\n`;
 * `parse_line` (`parseLine`): nothing is trimmed; the phrase is the first non-empty
-  delimiter-separated field with `"` stripped from both ends; the frequency is the second such
-  field, parsed as `u32` (`parseU32` = `u32::from_str`), or 0 without looking at it for a
-  one-character phrase unless `--keep-word-freq`; the syllables are the non-empty fields of the line
-  split on `,` or any whitespace *after the first two*, each with `"` stripped, empty ones skipped,
-  everything from the first one starting with `#` ignored, each built through the order-checking
-  syllable builder (`Chewing.parse`).  A record without syllables, or whose number of syllables
-  differs from the number of characters, is accepted (finding F27);
-* a line that is not valid UTF-8 (`readRawLines`, `compileRaw`) makes `run` return the I/O error at once:
-  exit status 1, nothing reported by number, nothing built even with `--skip-invalid` (finding F45) — except
-  the CSV header line, which is skipped unread;
+  delimiter-separated field with `"` stripped from both ends — rejected if it is then empty or contains
+  a comma or whitespace; the frequency is the second such field, always parsed as `u32` (`parseU32` =
+  `u32::from_str`) and then replaced by 0 for a one-character phrase unless `--keep-word-freq`; the
+  syllables are the non-empty fields of the line split on `,` or any whitespace *after the first two*,
+  each with `"` stripped, empty ones skipped, everything from the first one starting with `#` ignored,
+  each built through the order-checking syllable builder (`Chewing.parse`); a record without syllables,
+  or whose number of syllables differs from the number of characters, is rejected (the checks were added
+  by the fixes of F27; the order of the checks is the code's);
+* a line that is not valid UTF-8 (`readRawLines`, `compileRaw`) is collected like any other malformed line
+  (`LineErr.invalidUtf8`, fix of F45): reported with its number, nothing built unless `--skip-invalid`,
+  and `BufRead::lines` goes on with the next line — except the CSV header line, which is skipped unread;
 * `run` (`compileRun`): CSV mode skips line 0; every failing line is reported with its 1-based number;
   nothing is built if a line failed unless `--skip-invalid`;
 * `TrieBuilder::insert` (`trieInsert`): same key and same phrase text replaces, otherwise appends;
@@ -95,11 +96,19 @@ deriving Repr, DecidableEq, BEq, Inhabited
 
 inductive LineErr where
   | noPhrase   -- no non-empty field
+  | emptyPhrase -- the first field is nothing but quotes
+  | phraseSep  -- a comma or whitespace in the phrase
   | noFreq     -- no second field
   | badFreq    -- the second field is not a `u32`
   | bopomofo   -- a character of a syllable field is not a Bopomofo symbol
   | syllable   -- the symbols of a syllable field are repeated or out of order
+  | noSyllables -- no syllable field (before the comment)
+  | lengthMismatch -- the number of syllables differs from the number of characters of the phrase
+  | invalidUtf8 -- the line is not valid UTF-8 (`BufRead::lines` returned `InvalidData`)
 deriving Repr, DecidableEq, BEq
+
+/-- the characters `parse_line` does not accept in a phrase: `c == ',' || c.is_whitespace()` -/
+def phraseSep (c : Nat) : Bool := c == cliPhraseSep || isWs c
 
 /-- the syllable fields, after the first two fields have been skipped -/
 def parseSyls : List Text → Except LineErr (List Nat)
@@ -118,25 +127,30 @@ def parseSyls : List Text → Except LineErr (List Nat)
 
 /-- the frequency of `parse_line`: `fs` are the non-empty delimiter-separated fields -/
 def parseFreq (keep : Bool) (phrase : Text) (fs : List Text) : Except LineErr Nat :=
-  if phrase.length == 1 && !keep then .ok 0
-  else match fs[1]? with
-    | none => .error .noFreq
-    | some f1 =>
-      match parseU32 (trimQ f1) with
-      | some n => .ok n
-      | none => .error .badFreq
+  match fs[1]? with
+  | none => .error .noFreq
+  | some f1 =>
+    match parseU32 (trimQ f1) with
+    | some n => .ok (if phrase.length == 1 && !keep then 0 else n)
+    | none => .error .badFreq
 
 /-- `parse_line(_, delimiter, line, keep_word_freq)` -/
 def parseLine (delim : Nat) (keep : Bool) (line : Text) : Except LineErr Rec :=
   match tokens (· == delim) line with
   | [] => .error .noPhrase
   | f0 :: fs =>
+    if (trimQ f0).isEmpty then .error .emptyPhrase
+    else if (trimQ f0).any phraseSep then .error .phraseSep
+    else
     match parseFreq keep (trimQ f0) (f0 :: fs) with
     | .error e => .error e
     | .ok freq =>
       match parseSyls ((tokens sylSep line).drop 2) with
       | .error e => .error e
-      | .ok syls => .ok { phrase := trimQ f0, freq := freq, syls := syls }
+      | .ok syls =>
+        if syls.isEmpty then .error .noSyllables
+        else if syls.length != (trimQ f0).length then .error .lengthMismatch
+        else .ok { phrase := trimQ f0, freq := freq, syls := syls }
 
 /-! ### files -/
 
@@ -239,29 +253,24 @@ where
     | b :: bs, acc =>
       if b == 10 then (decodeUtf8 acc.reverse).map (fun l => finishLine l.reverse) :: go bs [] else go bs (b :: acc)
 
-/-- 0-based index of the first line `run` reads with `line?` that is not valid UTF-8 (the CSV header is
-    skipped before it is looked at) -/
-def firstInvalid (f : Flags) : Nat → RawLines → Option Nat
-  | _, [] => none
+/-- one line as the loop of `run` sees it: `Err(InvalidData)` is collected as a malformed line -/
+def parseRawLine (f : Flags) : Option Text → Except LineErr Rec
+  | none => .error .invalidUtf8
+  | some l => parseLine f.delim f.keep l
+
+/-- `parseAll` on the lines as `BufRead::lines` yields them -/
+def parseAllRaw (f : Flags) : Nat → RawLines → List Rec × List (Nat × LineErr)
+  | _, [] => ([], [])
   | idx, l :: ls =>
-    if f.csv && idx == 0 then firstInvalid f (idx + 1) ls
-    else match l with
-      | none => some idx
-      | some _ => firstInvalid f (idx + 1) ls
+    if f.csv && idx == 0 then parseAllRaw f (idx + 1) ls
+    else match parseRawLine f l with
+      | .ok r => (r :: (parseAllRaw f (idx + 1) ls).1, (parseAllRaw f (idx + 1) ls).2)
+      | .error e => ((parseAllRaw f (idx + 1) ls).1, (idx, e) :: (parseAllRaw f (idx + 1) ls).2)
 
-inductive Outcome where
-  /-- `let line = line?;` fails at this line (0-based): "stream did not contain valid UTF-8", exit status 1, no
-      `Parsing failed at line` message at all (they are printed after the loop), nothing built — with or
-      without `--skip-invalid` -/
-  | ioError (line : Nat)
-  | ran (r : CompileResult)
-deriving Repr, DecidableEq
-
-/-- `init_database::run` on a file given as bytes -/
-def compileRaw (f : Flags) (src : RawLines) : Outcome :=
-  match firstInvalid f 0 src with
-  | some i => .ioError i
-  | none => .ran (compileRun f (src.map (·.getD [])))
+/-- `init_database::run` on a file given as bytes (up to `builder.build`) -/
+def compileRaw (f : Flags) (src : RawLines) : CompileResult :=
+  { reported := (parseAllRaw f 0 src).2.map (fun e => (e.1 + 1, e.2)),
+    inserted := if !(parseAllRaw f 0 src).2.isEmpty && !f.skip then none else some (parseAllRaw f 0 src).1 }
 
 /-! ### the dumper -/
 
